@@ -417,6 +417,9 @@ func evalConstructorDeclareStmt(vm *r.VM, node *syntax.FunctionDeclareStmt) erro
 		vm.PushCallFrame(r.NewFunctionCallFrame(module, instance))
 
 		if _, err := evalExecBlock(vm, node.ExecBlock, elems); err != nil {
+			if isLoopSignal(err) {
+				vm.PopCallFrame()
+			}
 			return nil, err
 		}
 
